@@ -9,6 +9,12 @@ sys.path.insert(0, os.path.dirname(os.path.abspath(__file__)))
 import common  # noqa: E402
 
 
+def _native_replay(prop):
+    """Does harness/cxx.py evaluate the single case stored in a replay file (it then reads ctx.replay)?"""
+    src = open(os.path.join(os.path.dirname(os.path.abspath(__file__)), prop.lower() + '.py')).read()
+    return 'replay_in' in src
+
+
 def main():
     ap = argparse.ArgumentParser()
     ap.add_argument('prop')
@@ -17,7 +23,16 @@ def main():
     ap.add_argument('--seed', type=int, default=int(os.environ.get('VERIF_SEED', '0')))
     a = ap.parse_args()
     mod = importlib.import_module(a.prop.lower())
-    ctx = common.Ctx(a.prop, a.tier, a.seed, a.replay)
+    replay = a.replay
+    if replay and not _native_replay(a.prop):
+        # checks without a case-level replay re-run the recorded (tier, seed): every random choice derives from the
+        # seed, so the recorded failing input is regenerated and evaluated again among the others
+        import json
+        doc = json.load(open(replay))
+        a.tier, a.seed = doc.get('tier', a.tier), int(doc.get('seed', a.seed))
+        print('replay by regeneration: tier=%s seed=%d (recorded: %s)' % (a.tier, a.seed, str(doc.get('what', ''))[:200]))
+        replay = None
+    ctx = common.Ctx(a.prop, a.tier, a.seed, replay)
     try:
         rc = mod.main(ctx)
     except Exception:
